@@ -110,6 +110,13 @@ F5U ==
     /\ dev = UCfg(d, sfx)
     /\ tgt = UCfg(t, "")
 
+(* F5N: the device knows only the bystander u3; the users u1 and u2 are both new (several new anchors in one run) *)
+F5N ==
+  \E t \in [{"u1", "u2", "u3"} -> UOpt2], sfx \in {"", "-DRC-0"} :
+    /\ t["u3"] = [f |-> "A", g |-> "G", idle |-> "60"]
+    /\ dev = UCfg([u \in {"u3"} |-> t[u]], sfx)
+    /\ tgt = UCfg(t, "")
+
 (* F6L: crypto maps.  Entries are matched by peer; the device's sequence numbers, map name, ACL and *)
 (* transform-set names differ from the target's; transform-sets are matched by content.             *)
 CEntryOpts == [peer : {"10.9.9.1", "10.9.9.2", "10.9.9.3"}, acl : {"", "A", "B"}, ts : {"T1", "T2"}, pfs : BOOLEAN]
@@ -199,7 +206,7 @@ M6 ==
        /\ dev = [objs |-> F({})]
        /\ tgt = cfg(nsp, {}) @@ [parts |-> [rawlines |-> rs, rawdyn |-> rd, merged |-> cfg(keep \cup rawl \cup dynref, dyno)]]
 
-Init == CASE Fam = "F6P" -> F6P [] Fam = "M6" -> M6 [] Fam = "F5U" -> F5U [] Fam = "F5" -> F5 [] Fam = "F6L" -> F6L
+Init == CASE Fam = "F5N" -> F5N [] Fam = "F6P" -> F6P [] Fam = "M6" -> M6 [] Fam = "F5U" -> F5U [] Fam = "F5" -> F5 [] Fam = "F6L" -> F6L
 Next == UNCHANGED <<dev, tgt>>
 Out == PrintT(<<"VOUT", ToJson([fam |-> Fam, dev |-> dev, tgt |-> tgt, tie |-> FALSE])>>)
 =============================================================================
